@@ -30,6 +30,18 @@ Theorem C18_roundtrip :
   forall d : doc L, ds_wf L d -> ~ KnownClass_C18 L d -> ds_decode L (ds_encode L d) = Some d.
 Proof. exact decode_encode. Qed.
 
+(** The class is exact, and what comes back instead is known: for EVERY well-formed document,
+    decoding the encoded tree gives the document with its lib strings and keys trimmed and its
+    dictionaries rebuilt by insertion ([ds_trim]); that is the document itself exactly when it is
+    outside the class. *)
+Theorem C18_load_save_is_trim :
+  forall L, l1_ok L -> forall d : doc L, ds_wf L d -> ds_decode L (ds_encode L d) = Some (ds_trim L d).
+Proof. exact decode_encode_gen. Qed.
+Theorem C18_class_exact :
+  forall L, l1_ok L -> forall d : doc L, ds_wf L d ->
+  (ds_decode L (ds_encode L d) = Some d <-> ~ KnownClass_C18 L d).
+Proof. exact decode_encode_iff. Qed.
+
 (** The written tree uses the designspace specification's element and attribute names: it is
     the tree of the writer transcribed from the specification, up to the order of attributes
     (which XML does not preserve). No hypothesis. *)
